@@ -149,8 +149,23 @@ Definition accept_state (s : dstate) (d : fdesc) : dstate :=
 Lemma b2z_eqb x : x = 0 \/ x = 1 -> b2z (x =? 1) = x.
 Proof. intros [->| ->]; reflexivity. Qed.
 
+
 Lemma byte_range b : byte_ok b = true -> 0 <= b < 256.
 Proof. unfold byte_ok. intro H. apply andb_prop in H. lia. Qed.
+
+Lemma le_val4_small (a b c d : byte) :
+  (0 <= a < 256) /\ (0 <= b < 256) /\ (0 <= c < 256) /\ (0 <= d < 256) -> u32 (le_val [a; b; c; d]) = le_val [a; b; c; d].
+Proof. intros H. unfold u32, M32. apply Z.mod_small. cbn [le_val]. lia. Qed.
+Lemma le_val8_small (a b c d e f g h : byte) :
+  (0 <= a < 256) /\ (0 <= b < 256) /\ (0 <= c < 256) /\ (0 <= d < 256) /\
+  (0 <= e < 256) /\ (0 <= f < 256) /\ (0 <= g < 256) /\ (0 <= h < 256) ->
+  u64 (le_val [a; b; c; d; e; f; g; h]) = le_val [a; b; c; d; e; f; g; h].
+Proof. intros H. unfold u64. apply Z.mod_small. cbn [le_val]. lia. Qed.
+(* split a [byte_ok a && (byte_ok b && ...)] hypothesis into ranges *)
+Ltac bytes_tac H :=
+  unfold bytes_ok in H; cbn [forallb] in H;
+  repeat (apply andb_prop in H; let H1 := fresh in destruct H as [H1 H]; apply byte_range in H1);
+  lia.
 
 Ltac kill_take r :=
   destruct r as [|? r]; [ try (simpl; intros; (left; vm_compute; reflexivity) || (right; split; [reflexivity|cbn; lia]));
@@ -176,14 +191,16 @@ Proof.
   intros s fromH m0 m1 m2 m3 rest Hb Hm Hlen.
   destruct rest as [|flg [|bd r]];
     try (unfold zlen, FD_minFHSize in Hlen; simpl length in Hlen; lia).
-  simpl in Hb. apply andb_prop in Hb. destruct Hb as [Hf Hb]. apply andb_prop in Hb. destruct Hb as [Hbd _].
+  simpl in Hb. apply andb_prop in Hb. destruct Hb as [Hf Hb]. apply andb_prop in Hb. destruct Hb as [Hbd Hr].
+  change (forallb byte_ok r = true) with (bytes_ok r = true) in Hr.
   apply byte_range in Hf. apply byte_range in Hbd.
   rewrite parse_desc_factor.
   pose proof (flags_equiv flg bd Hf Hbd) as FE.
   unfold decodeHeader.
   replace (zlen (m0 :: m1 :: m2 :: m3 :: flg :: bd :: r) <? FD_minFHSize) with false
     by (symmetry; apply Z.ltb_ge; exact Hlen).
-  replace (rd32 (m0 :: m1 :: m2 :: m3 :: flg :: bd :: r)) with FD_MAGICNUMBER by (symmetry; exact Hm).
+  replace (rd32 (m0 :: m1 :: m2 :: m3 :: flg :: bd :: r)) with FD_MAGICNUMBER
+    by (change (rd32 (m0 :: m1 :: m2 :: m3 :: flg :: bd :: r)) with (u32 (le_val [m0; m1; m2; m3])); rewrite Hm; reflexivity).
   replace (Z.land FD_MAGICNUMBER SKIP_MASK =? FD_MAGIC_SKIPPABLE_START) with false by (vm_compute; reflexivity).
   replace (negb (FD_MAGICNUMBER =? FD_MAGICNUMBER)) with false by (vm_compute; reflexivity).
   change (nth_error (m0 :: m1 :: m2 :: m3 :: flg :: bd :: r) 4) with (Some flg).
@@ -239,7 +256,8 @@ Proof.
     unfold accept_state, fi_of_desc. simpl f_bsid. simpl f_indep. simpl f_ccrc. simpl f_bcrc. simpl f_csize. simpl f_dictid.
     rewrite !b2z_eqb by assumption. cbv iota.
     match goal with |- context [rd32 (zdrop (7 + 0 + 4 - 5) ?l)] =>
-      change (rd32 (zdrop (7 + 0 + 4 - 5) l)) with (le_val [b; b0; b1; b2]) end.
+      change (rd32 (zdrop (7 + 0 + 4 - 5) l)) with (u32 (le_val [b; b0; b1; b2])) end.
+    rewrite (le_val4_small b b0 b1 b2) by (bytes_tac Hr).
     f_equal. simpl length. lia.
   - (* content size only: 15 bytes *)
     do 8 (destruct r as [|? r]; [simpl length; right; split; [reflexivity|cbn; lia]|]).
@@ -259,7 +277,8 @@ Proof.
     unfold accept_state, fi_of_desc. simpl f_bsid. simpl f_indep. simpl f_ccrc. simpl f_bcrc. simpl f_csize. simpl f_dictid.
     rewrite !b2z_eqb by assumption. cbv iota.
     match goal with |- context [rd64 (zdrop 6 ?l)] =>
-      change (rd64 (zdrop 6 l)) with (le_val [b; b0; b1; b2; b3; b4; b5; b6]) end.
+      change (rd64 (zdrop 6 l)) with (u64 (le_val [b; b0; b1; b2; b3; b4; b5; b6])) end.
+    rewrite (le_val8_small b b0 b1 b2 b3 b4 b5 b6) by (bytes_tac Hr).
     f_equal. simpl length. lia.
   - (* both: 19 bytes *)
     do 12 (destruct r as [|? r]; [simpl length; right; split; [reflexivity|cbn; lia]|]).
@@ -280,9 +299,11 @@ Proof.
     unfold accept_state, fi_of_desc. simpl f_bsid. simpl f_indep. simpl f_ccrc. simpl f_bcrc. simpl f_csize. simpl f_dictid.
     rewrite !b2z_eqb by assumption. cbv iota.
     match goal with |- context [rd64 (zdrop 6 ?l)] =>
-      change (rd64 (zdrop 6 l)) with (le_val [b; b0; b1; b2; b3; b4; b5; b6]) end.
+      change (rd64 (zdrop 6 l)) with (u64 (le_val [b; b0; b1; b2; b3; b4; b5; b6])) end.
     match goal with |- context [rd32 (zdrop (7 + 8 + 4 - 5) ?l)] =>
-      change (rd32 (zdrop (7 + 8 + 4 - 5) l)) with (le_val [b7; b8; b9; b10]) end.
+      change (rd32 (zdrop (7 + 8 + 4 - 5) l)) with (u32 (le_val [b7; b8; b9; b10])) end.
+    rewrite (le_val8_small b b0 b1 b2 b3 b4 b5 b6) by (bytes_tac Hr).
+    rewrite (le_val4_small b7 b8 b9 b10) by (bytes_tac Hr).
     f_equal. simpl length. lia.
 Qed.
 
